@@ -237,7 +237,7 @@ def ctor_census(rep, lib, tab, fields, rid="C12-CTOR-CENSUS"):
                  "constructors; any other place that builds one from an existing context (a Context is a parameter of "
                  "the function, or of the function a closure is written in) does not take variables, definitions, "
                  "input_context or regex_cache from a fresh context: macros and variables bound outside stay bound in "
-                 "the derived context", floor=9,
+                 "the derived context", floor=1,
                  analysis="A7 census of Context aggregates over the functions as written (closures included) + A4 "
                           "provenance of the four environment operands of every untabled site")
     raw = lib.raw_view() if hasattr(lib, "raw_view") else lib
